@@ -67,6 +67,52 @@ type appRun struct {
 	users  []appUser
 	seqs   map[string]uint64
 	height int64
+	// the distributor's half of BeginBlock against the model (AppCheck.v): the generated configuration with its interned tables,
+	// nil once a governance update has replaced it
+	de   *distrEnv
+	dcfg *distrCfg
+}
+
+// terms of type AppCheck.abcase collected while the cases of one harness run execute (written next to the minter's cases)
+var appDistrTerms []string
+
+// distrWorldTerm prints the distributor world the model starts the block from: configuration, stored states, balances of the
+// configuration's accounts; ok = false when something in it is outside what the comparison covers.
+func (r *appRun) distrWorldTerm(ctx sdk.Context) (string, bool) {
+	de, app := r.de, r.app
+	var sts []string
+	for _, st := range app.CfedistributorKeeper.GetAllStates(ctx) {
+		key, known := de.keyTab[st.GetStateKey()]
+		if !known {
+			return "", false
+		}
+		acc := "(Some EMPTY_ACCT)"
+		if !st.Burn {
+			if st.Account == nil {
+				return "", false
+			}
+			acc = "(Some " + de.accTerm(dAcc{st.Account.Type, st.Account.Id}) + ")"
+		}
+		for _, dc := range st.Remains {
+			if dc.Denom != BondDenom {
+				return "", false
+			}
+		}
+		sts = append(sts, fmt.Sprintf("{| st_acc := %s; st_burn := %s; st_key := %d; st_rem := %s |}", acc, zBool(st.Burn), key, decCoinsTerm(st.Remains)))
+	}
+	var bs []string
+	for i, a := range de.addrTab {
+		bal := app.BankKeeper.GetAllBalances(ctx, a)
+		amt := bal.AmountOf(BondDenom)
+		if len(bal) > 1 || (len(bal) == 1 && amt.IsZero()) {
+			return "", false // other denominations on an account of the configuration
+		}
+		if !amt.IsZero() {
+			bs = append(bs, zPair(zI(int64(i)), zList([]string{zPair("0", zB(amt.BigInt()))})))
+		}
+	}
+	return fmt.Sprintf("{| dw_subs := %s; dw_states := %s; dw_bal := %s; dw_burned := []; dw_burnkey := %d |}",
+		de.cfgTerm(*r.dcfg), zList(sts), zList(bs), de.keyTab[distrtypes.BurnStateKey]), true
 }
 
 func eventsDigest(evs []abci.Event) string {
@@ -158,6 +204,10 @@ func (r *appRun) runBlock(pb plannedBlock, tracked []sdk.AccAddress, rep *Report
 	var sb strings.Builder
 	ctxBefore := app.BaseApp.NewContext(true, tmproto.Header{Height: app.LastBlockHeight()})
 	supplyBefore := app.BankKeeper.GetSupply(ctxBefore, BondDenom).Amount
+	dWorld, dOK := "", false
+	if record && r.dcfg != nil {
+		dWorld, dOK = r.distrWorldTerm(ctxBefore)
+	}
 	var rb abci.ResponseBeginBlock
 	func() {
 		defer func() {
@@ -175,6 +225,45 @@ func (r *appRun) runBlock(pb plannedBlock, tracked []sdk.AccAddress, rep *Report
 	o.minted = mintEventAmount(rb.Events)
 	o.burned = burnedInEvents(rb.Events, BondDenom)
 	supplyAfterBegin := app.BankKeeper.GetSupply(ctx, BondDenom).Amount
+	if record && dOK && o.minted != nil && app.CfeminterKeeper.GetParams(ctx).MintDenom == BondDenom {
+		// ---- the distributor's half of this BeginBlock against the model (AppCheck.v)
+		de := r.de
+		skipAddr := map[string]bool{authtypes.NewModuleAddress(distrtypes.ValidatorsRewardsCollector).String(): true, // x/distribution allocates it in the same BeginBlock
+			authtypes.NewModuleAddress(authtypes.FeeCollectorName).String(): true}
+		failed := false
+		exp := []*big.Int{bi(1)}
+		states := app.CfedistributorKeeper.GetAllStates(ctx)
+		exp = append(exp, bi(int64(len(states))))
+		for _, st := range states {
+			key, known := de.keyTab[st.GetStateKey()]
+			if !known {
+				failed = true
+			}
+			exp = append(exp, bi(int64(key)), bi(b2i(st.Burn)), st.Remains.AmountOf(BondDenom).BigInt())
+			payable := st.Burn || (st.Account != nil && st.Account.Type != distrtypes.InternalAccount && st.Account.Type != distrtypes.Main)
+			for _, dc := range st.Remains {
+				if dc.Denom != BondDenom || (payable && dc.Amount.GTE(sdk.OneDec())) {
+					failed = true // a payout did not go through (a blocked recipient, ...): the failure pattern is not observable through ABCI
+				}
+			}
+		}
+		var addrs []string
+		for i, a := range de.addrTab {
+			if skipAddr[a.String()] {
+				continue
+			}
+			addrs = append(addrs, zI(int64(i)))
+			exp = append(exp, app.BankKeeper.GetBalance(ctx, a, BondDenom).Amount.BigInt())
+		}
+		exp = append(exp, o.burned)
+		if failed {
+			rep.Count("appdistr.not_compared.a_payout_failed_or_foreign_state")
+		} else {
+			rep.Count("appdistr.blocks_compared")
+			appDistrTerms = append(appDistrTerms, fmt.Sprintf("{| ab_id := %d; ab_block := %d; ab_world := %s;\n ab_minted := %s; ab_addrs := %s; ab_denoms := [0]; ab_expected := %s |}",
+				cid, bIdx, dWorld, zB(o.minted), zList(addrs), zListB(exp)))
+		}
+	}
 	if record {
 		if o.minted != nil {
 			want := new(big.Int).Sub(o.minted, o.burned)
@@ -288,14 +377,18 @@ func (r *appRun) runBlock(pb plannedBlock, tracked []sdk.AccAddress, rep *Report
 		// what a governance proposal (or a multi-message transaction, or a simulation) whose later message fails leaves behind:
 		// the update itself succeeds on a cache-wrapped context, and the context is never written
 		cc, _ := ctx.CacheContext()
+		inForce := app.CfeminterKeeper.GetParams(ctx)
 		err := app.CfeminterKeeper.UpdateParams(cc, appparams.GetAuthority(), *pb.discarded)
 		if record {
 			rep.Count("discarded_minter_update")
-			rep.Eval("C13.discarded_update_changes_nothing", err != nil || !sameParams(app.CfeminterKeeper.GetParams(ctx), *pb.discarded), cid, bIdx,
-				"a minter parameter update executed on a dropped branch of the state is visible in the block's state")
+			if !sameParams(inForce, *pb.discarded) { // (a schedule without amounts is its own "update": nothing to see)
+				rep.Eval("C13.discarded_update_changes_nothing", err != nil || sameParams(app.CfeminterKeeper.GetParams(ctx), inForce), cid, bIdx,
+					"a minter parameter update executed on a dropped branch of the state is visible in the block's state")
+			}
 		}
 	}
 	if pb.distrUpdate != nil {
+		r.dcfg = nil // the generated configuration is no longer the one in force
 		err := app.CfedistributorKeeper.SetParams(ctx, *pb.distrUpdate)
 		sb.WriteString(fmt.Sprintf("distr-update %v;", err == nil))
 		if record {
@@ -443,6 +536,11 @@ func runAppCase(seed uint64, idx int, rep *Report, profile string, traceDir stri
 	run := newAppRun(genesis, genTime, 0, users)
 	run.ta.ValSet, run.ta.ValAddr = valSet, valAddr
 	app := run.app
+	if len(dcfg.subs) > 0 {
+		de.ta = run.ta
+		de.intern(dcfg)
+		run.de, run.dcfg = de, &dcfg
+	}
 
 	// tracked accounts: users, vesting module, fee collector, distributor accounts, recipients
 	var recipients []sdk.AccAddress
